@@ -200,7 +200,8 @@ Fixpoint map_m {A B} (f : A -> M B) (l : list A) : M (list B) :=
 Record srcflags := mkFlags {
   ng_copies_input : bool ;     (* numeric_grad works on a private copy of x *)
   ng_restore_finally : bool ;  (* numeric_grad restores x[idx] in a finally *)
-  nj_private : bool ;          (* numeric_jacobian writes only to x.copy()s of a flattened copy *)
+  nj_flat_copy : bool ;        (* numeric_jacobian flattens x into a new array (.flatten()) *)
+  nj_pert_copy : bool ;        (* numeric_jacobian perturbs x.copy()s, not x *)
   grad_finally : bool ;        (* eval_dyad_grad.func: klong[a] = orig in a finally *)
   mg_finally : bool ;          (* call_fn_with_tensors: originals restored in a finally *)
   mj_finally : bool            (* multi_jacobian_of_fn.single_param_fn: klong[s] = orig in a finally *)
@@ -230,14 +231,14 @@ Section Ops.
   (* autograd.numeric_jacobian(func, x, backend) *)
   Definition numeric_jacobian (func : val -> M fval) (x : val) : M val :=
     x0 <- as_float_array false (to_numpy x) ;;
-    xl <- (if nj_private fl then flatten_arr x0 else ret x0) ;;
+    xl <- (if nj_flat_copy fl then flatten_arr x0 else ret x0) ;;
     a <- copy_arr xl ;; f0 <- func (VArr a) ;; vector_value f0 ;;;
     c <- get_cell xl ;;
     j <- alloc (mkCell DF64 [] []) ;;
     for_each (seq 0 (length (c_data c))) (fun idx =>
-      xp <- (if nj_private fl then copy_arr xl else ret xl) ;;
+      xp <- (if nj_pert_copy fl then copy_arr xl else ret xl) ;;
       o <- read_elem xp idx ;; write_elem xp idx (perturb true o) ;;;
-      xm <- (if nj_private fl then copy_arr xl else ret xl) ;;
+      xm <- (if nj_pert_copy fl then copy_arr xl else ret xl) ;;
       o <- read_elem xm idx ;; write_elem xm idx (perturb false o) ;;;
       fp <- func (VArr xp) ;; fm <- func (VArr xm) ;;
       vector_value fp ;;; vector_value fm) ;;;
